@@ -101,6 +101,8 @@ def build_jobs(ctx, rng):
                     c["cols2"] = rng.choice(compositions(W))
         j = {"func": func, "params": params, "H": H, "W": W, "vals": vals, "dtype": dtype, "radius": list(radius),
              "chunkings": ch, "kh": kh, "kw": kw, "passes": passes, "xs": None, "ys": None, "res": None}
+        if rng.random() < 0.35:
+            j["layout"] = rng.choice(["F", "T", "S", "R"])      # same values, different buffer layout
         if geo == "res":
             j["res"] = [2.0, 3.0]
         elif geo == "coords":
